@@ -58,19 +58,28 @@ func register(kind string, weight int, open openFunc) {
 }
 
 func init() {
-	register("mem", 30, openMem)
-	register("local", 3, openLocal)
-	register("console", 2, openConsole)
-	register("http", 2, openHTTP)
+	register("mem", 60, openMem)
+	register("local", 6, openLocal)
+	register("console", 4, openConsole)
+	register("http", 4, openHTTP)
+	registerRemote()
 }
 
-// storeDraw is the weighted list the generator samples the store kind from.
+// storeDraw is the weighted list the generator samples the store kind from. rapid favours
+// both ends of a sampled list, so the cheap first kind (mem) occupies both ends.
 func storeDraw() []string {
 	var out []string
-	for _, k := range storeOrder {
+	first := storeOrder[0]
+	for i := 0; i < storeWeight[first]/2; i++ {
+		out = append(out, first)
+	}
+	for _, k := range storeOrder[1:] {
 		for i := 0; i < storeWeight[k]; i++ {
 			out = append(out, k)
 		}
+	}
+	for i := storeWeight[first] / 2; i < storeWeight[first]; i++ {
+		out = append(out, first)
 	}
 	return out
 }
